@@ -45,6 +45,10 @@ package dns
 //@   requires lexinv: (zp.c.l.value == 1 ==> len(zp.c.l.token) > 0) && (zp.c.cachedL != nil ==> (zp.c.cachedL.value == 1 ==> len(zp.c.cachedL.token) > 0))
 //@   loop * invariant (zp.c.l.value == 1 ==> len(zp.c.l.token) > 0) && (zp.c.cachedL != nil ==> (zp.c.cachedL.value == 1 ==> len(zp.c.cachedL.token) > 0))
 //@   assert at "*rr.Header() = *h" tabctor: rr != nil && zp.c != nil && (zp.c.l.value == 1 ==> len(zp.c.l.token) > 0) && (zp.c.cachedL != nil ==> (zp.c.cachedL.value == 1 ==> len(zp.c.cachedL.token) > 0))
+// an RDATA parser that reports an error without a token of its own (types without a presentation format) gets the
+// current token's position: the error handed on is never without one (the semantic form - the lex handed to
+// setParseError is not the zero value - exceeds the solvers on this function; the guard itself is anchored instead)
+//@   assert at "if err.lex == (lex{}) {" haspos: err != nil [C07]
 //@   loop 1 invariant (st == 15 || st == 16 || st == 19 || st == 20) ==> zp.h.Class == 1 [C06]
 //@   assert at "h.Rrtype = l.torc@1" classin: zp.h.Class == 1 [C06]
 //@   assert at "st = zExpectAnyNoTTLBl@1" ttltrack0: zp.defttl != nil && (zp.defttl.isByDirective || zp.defttl.ttl == ttl) && zp.h.Ttl == ttl [C05 C06]
